@@ -311,8 +311,14 @@ func runFrames(raw json.RawMessage, seed int64, rec *Rec) {
 				status = s.Status
 				h.Set("Content-Type", "application/json") // a unary Connect error body
 			}
+			// net/http announces the length of small unary responses: a complete, cleanly ended unary Connect body
+			// comes with its Content-Length (every other second scenario), streams never do
+			clen := int64(-1)
+			if s.Raw && s.Tail == "eof" && s.Cut >= len(wire) && s.Tid%2 == 0 {
+				clen = int64(len(wire))
+			}
 			return &http.Response{StatusCode: status, Status: statusLine(status), ProtoMajor: 2, Header: h,
-				Trailer: trailer, Body: body, Request: req}, nil
+				Trailer: trailer, Body: body, Request: req, ContentLength: clen}, nil
 		}
 		opts := clientProtoOpts(s.Proto)
 		if limit > 0 {
